@@ -146,6 +146,38 @@ def classifyAll (pick : List Nat → Nat) (s j : α) (db : Loaded α) : Except C
              pairs := acc.pairs ++ c.pairs, strict := acc.strict && c.strict })
       { flags := [], interstorms := [], pairs := [], strict := true }
 
+def increasingB : List Int → Bool
+  | a :: b :: t => decide (a < b) && increasingB (b :: t)
+  | _ => true
+
+/-- consecutive differences all equal to `dt` -/
+def steppedB (dt : Int) : List Int → Bool
+  | a :: b :: t => (b - a == dt) && steppedB dt (b :: t)
+  | _ => true
+
+/-- What `load` guarantees and classification relies on (decidable; evaluated on every real load):
+    positive step; grid instants strictly increasing; some labelled instant carries a level; every
+    instant with a level has a rain step; the samples of every stretch are one step apart. -/
+def wellFormedLoadedB (db : Loaded α) : Bool :=
+  decide (0 < db.step) &&
+  increasingB (db.grid.map (·.1)) &&
+  !(labelsOf db).isEmpty &&
+  db.grid.all (fun g => !(db.level.any (fun z => z.1 == g.1)) || db.rain.any (fun r => r.1 == g.1)) &&
+  (labelsOf db).all (fun l => steppedB db.step ((samplesOf db l).map (·.1)))
+
+def Loaded.shift (db : Loaded α) (k : Int) : Loaded α :=
+  { step := db.step
+    grid := db.grid.map (fun g => (g.1 + k, g.2))
+    rain := db.rain.map (fun r => (r.1 + k, r.2.1 + k, r.2.2))
+    et := db.et.map (fun r => (r.1 + k, r.2.1 + k, r.2.2))
+    level := db.level.map (fun z => (z.1 + k, z.2)) }
+
+def Classified.shift (c : Classified) (k : Int) : Classified :=
+  { flags := c.flags.map (fun f => (f.1 + k, f.2))
+    interstorms := c.interstorms.map (fun q => (q.1 + k, q.2 + k))
+    pairs := c.pairs.map (fun p => ((p.1.1 + k, p.1.2 + k), (p.2.1 + k, p.2.2 + k)))
+    strict := c.strict }
+
 /-- the view `storm_total_rain_depth`: Σ intensity·(thru−from)/3600 over steps inside [start, thru] -/
 def totalRainDepth (db : Loaded α) (storm : Int × Int) : α :=
   Num.sum ((db.rain.filter (fun r => decide (storm.1 ≤ r.1) && decide (r.2.1 ≤ storm.2))).map
